@@ -13,6 +13,7 @@ import (
 	"go/constant"
 	"go/token"
 	"go/types"
+	"os"
 	"sort"
 	"strings"
 
@@ -332,11 +333,12 @@ type frame struct {
 
 // PSOpts controls inlining.
 type PSOpts struct {
-	MaxDepth  int
-	MaxPaths  int
-	NoInline  map[string]bool // function keys never inlined (kept as calls)
-	Inline    map[string]bool // function keys inlined even though recursive elsewhere
-	EntryFree bool            // entry is a closure: its free variables are symbolic
+	MaxDepth     int
+	MaxPaths     int
+	NoInline     map[string]bool // function keys never inlined (kept as calls)
+	Inline       map[string]bool // function keys inlined even though recursive elsewhere
+	EntryFree    bool            // entry is a closure: its free variables are symbolic
+	NoInlinePkgs []string        // short package names whose functions are never inlined
 }
 
 type explorer struct {
@@ -381,7 +383,7 @@ func (p *Prog) Paths(entry *ssa.Function, opts PSOpts) []*Path {
 	if opts.MaxPaths == 0 {
 		opts.MaxPaths = 6000
 	}
-	key := p.FuncName(entry) + "|" + fmt.Sprint(opts.MaxDepth, sortedBoolKeys(opts.NoInline), sortedBoolKeys(opts.Inline))
+	key := p.FuncName(entry) + "|" + fmt.Sprint(opts.MaxDepth, sortedBoolKeys(opts.NoInline), sortedBoolKeys(opts.Inline), opts.NoInlinePkgs)
 	if p.pathCache == nil {
 		p.pathCache = map[string][]*Path{}
 	}
@@ -1615,6 +1617,11 @@ func (x *explorer) shouldInline(fr *frame, callee *ssa.Function) bool {
 	if x.opts.NoInline[name] {
 		return false
 	}
+	for _, pk := range x.opts.NoInlinePkgs {
+		if strings.HasPrefix(name, pk+".") {
+			return false
+		}
+	}
 	if fr.depth+1 > x.opts.MaxDepth {
 		return false
 	}
@@ -1844,7 +1851,7 @@ func (x *explorer) mutated(st *state, m *T) bool {
 
 func dumpPaths(p *Prog, name string) {
 	fn := p.Func(name)
-	paths := p.Paths(fn, PSOpts{NoInline: dumpNoInline})
+	paths := p.Paths(fn, PSOpts{NoInline: dumpNoInline, NoInlinePkgs: strings.Fields(os.Getenv("BKLCHECK_NOINLINEPKG"))})
 	for i, pa := range paths {
 		fmt.Printf("%3d %s\n", i, pa)
 	}
